@@ -139,26 +139,32 @@ func (b *exampleBuilder) buildExampleForMixedValueNode(node *ischema.MixedValueN
 		return nil, errs.ErrLoader.F()
 	}
 
-	typeName := tt[0]
-	if !bytes.NewBytes(typeName).IsUserTypeName() {
+	if !bytes.NewBytes(tt[0]).IsUserTypeName() {
 		return node.Value().Data(), nil
 	}
 
-	if cnt := b.processedTypes[typeName]; cnt > 1 {
-		// Do not process already processed type more than twice.
-		return nil, nil
-	}
+	// Use the first of the types which isn't processed more than twice.
+	for _, typeName := range tt {
+		if cnt := b.processedTypes[typeName]; cnt > 1 {
+			continue
+		}
 
-	b.processedTypes[typeName]++
-	defer func() {
+		t, ok := b.types[typeName]
+		if !ok {
+			return nil, errs.ErrUserTypeNotFound.F(typeName)
+		}
+
+		b.processedTypes[typeName]++
+		ex, err := b.Build(t.Schema.RootNode())
 		b.processedTypes[typeName]--
-	}()
-
-	t, ok := b.types[typeName]
-	if !ok {
-		return nil, errs.ErrUserTypeNotFound.F(typeName)
+		return ex, err
 	}
-	return b.Build(t.Schema.RootNode())
+
+	// Do not process already processed type more than twice.
+	if ischema.IsNullableNode(node) {
+		return []byte("null"), nil
+	}
+	return nil, nil
 }
 
 func buildExample(node ischema.Node, types map[string]ischema.Type) ([]byte, error) {
